@@ -32,6 +32,8 @@ def to_v(x):
         x = x.value
     if x is None or isinstance(x, (bool, int, str)):
         return {'L': [d, x]}
+    if isinstance(x, list):
+        return {'L': [d, {'Li': json.dumps(x, sort_keys=True, default=repr)}]}
     return {'L': [d, {'O': json.dumps(x, sort_keys=True, default=repr)}]}
 
 
@@ -40,7 +42,7 @@ def from_v(v):
         return {k: from_v(x) for k, x in v['N']}
     d, a = v['L']
     if isinstance(a, dict):
-        a = json.loads(a['O'])
+        a = json.loads(a['O'] if 'O' in a else a['Li'])
     return DefaultValue(a) if d else a
 
 
@@ -49,7 +51,7 @@ def plain(v):
     if 'N' in v:
         return {k: plain(x) for k, x in v['N']}
     a = v['L'][1]
-    return json.loads(a['O']) if isinstance(a, dict) else a
+    return json.loads(a['O'] if 'O' in a else a['Li']) if isinstance(a, dict) else a
 
 
 def dict_ids(x, acc):
@@ -192,6 +194,8 @@ def do_coerce(r):
                 out.append(['ok', cfg.get_config_value(sec, k, d)])
             elif kind == 'b':
                 out.append(['ok', cfg.get_config_value_as_bool(sec, k, d)])
+            elif kind == 'l':
+                out.append(['ok', to_v(cfg.get_config_value_as_list(sec, k, None if d is None else from_v(d)))])
             else:
                 out.append(['ok', to_v(cfg.get_config_value_as_dict(sec, k, None if d is None else from_v(d)))])
         except KeyError:
